@@ -208,6 +208,7 @@ type Exec struct {
 	smokes   []*smoke
 	nfeas    int
 	pruned   int
+	deriving bool // proving the derives clauses of x.fc from its own contract: they are not assumed at the (synthetic) call
 }
 
 // smoke is a vacuity probe: the hypotheses after assuming a contract/invariant
@@ -420,6 +421,96 @@ func (p *Program) verify(fn *ssa.Function, fc *FuncContract) (x *Exec) {
 	return x
 }
 
+// verifyDerived proves the `derives` clauses of fc: two-state consequences of the contract itself. The function is
+// *called* once, modularly, from an arbitrary state satisfying its precondition (requires proved trivially, assigns
+// havocked, ensures assumed) and each derives clause must hold in the resulting state. The body plays no part: the
+// clause holds for every implementation that satisfies the contract, and callers may rely on it like on an ensures.
+func (p *Program) verifyDerived(fn *ssa.Function, fc *FuncContract) (x *Exec) {
+	_, key := funcKey(fn)
+	x = &Exec{p: p, fn: fn, fc: fc, key: key, names: map[string]int{}, params: map[string]Value{}, maxPath: 400, deriving: true}
+	defer func() {
+		if r := recover(); r != nil {
+			if ue, ok := r.(error); ok {
+				if _, ok := ue.(unsupportedErr); ok {
+					x.fail("%v", ue)
+					return
+				}
+			}
+			if _, ok := r.(pathEnd); ok {
+				return
+			}
+			panic(r)
+		}
+	}()
+	if fn.Blocks == nil {
+		x.fail("no body for %s", key)
+		return x
+	}
+	st := &State{hypSet: map[string]bool{}, heap: &Heap{fam: map[string]*Term{}, alloc: Sym("alloc@0", SArrB)},
+		ghost: map[string]*Term{}}
+	st.assume(Select(st.heap.alloc, Int(0)))
+	fr := &Frame{fn: fn, env: map[ssa.Value]Value{}, names: map[string]Value{}, loops: map[int]*loopSnap{}, info: p.info(fn)}
+	st.top = fr
+	var names []string
+	var args []Value
+	for i, prm := range fn.Params {
+		name := prm.Name()
+		if i < len(fc.Params) {
+			name = fc.Params[i]
+		}
+		if name == "_" || name == "" {
+			name = fmt.Sprintf("arg%d", i)
+		}
+		v := st.freshValue(name, prm.Type())
+		if pv, ok := v.(Ptr); ok {
+			pv.R = Sym(name, SInt)
+			v = pv
+		}
+		fr.env[prm] = v
+		x.params[name] = v
+		fr.names[name] = v
+		names = append(names, name)
+		args = append(args, v)
+	}
+	st.old = st.heap.clone()
+	st.oldGh = map[string]*Term{}
+	for _, c := range fc.Requires {
+		st.assume(x.evalBool(st, c, x.ctxFor(st, fr, st.old, nil)))
+	}
+	st.old = st.heap.clone()
+	for k, v := range st.ghost {
+		st.oldGh[k] = v
+	}
+	x.entry = st.clone()
+	fr.block = fn.Blocks[0]
+	res := x.applyContract(st, fr, fc, key, names, args, fn.Signature.Results(), fn.Pos())
+	x.obs = nil // the duties of the synthetic call (requires, frame) are the contract's own clauses
+	vars := map[string]Value{}
+	if t, ok := res.(Tup); ok {
+		for i, v := range t {
+			vars[fmt.Sprintf("result%d", i)] = v
+		}
+		if len(t) == 1 {
+			vars["result"] = t[0]
+		}
+	} else {
+		vars["result"] = res
+	}
+	c := x.ctxFor(st, fr, st.old, vars)
+	for _, cl := range fc.DeriveUses {
+		if t := x.useLemma(st, cl, c); t != nil {
+			st.assume(t)
+		}
+	}
+	for _, cl := range fc.Derives {
+		t := x.evalBool(st, cl, c)
+		x.oblige(st, "derived", fmt.Sprintf("%s@%s", lineOf(cl.Line), x.pos(fn.Pos())), cl.Src, cl.Props, t)
+		st.assume(t)
+	}
+	x.paths = 1
+	return x
+}
+
 func (x *Exec) runPaths(st *State) {
 	defer func() {
 		if r := recover(); r != nil {
@@ -522,7 +613,11 @@ func (x *Exec) step(st *State, fr *Frame, ins ssa.Instruction) bool {
 			}
 		}
 	case *ssa.Alloc:
-		fr.env[i] = x.alloc(st, i.Type().(*types.Pointer).Elem(), i.Comment)
+		at := i.Type().(*types.Pointer).Elem()
+		if tag, ok := privateLocal(i); ok {
+			at = &localType{T: at, Tag: tag}
+		}
+		fr.env[i] = x.alloc(st, at, i.Comment)
 		if i.Comment != "" {
 			fr.names["&"+i.Comment] = fr.env[i]
 		}
@@ -735,6 +830,91 @@ func (x *Exec) nilCheck(st *State, pv Ptr, pos token.Pos, what string) {
 }
 
 // alloc creates a new zeroed object of type t and returns a pointer to it.
+// privateLocal: the address of this local is only used to load, store and address fields / elements (it is never
+// passed, stored, captured, sliced or converted), so nothing else can alias it.
+var privCache = map[*ssa.Alloc]string{}
+
+func privateLocal(a *ssa.Alloc) (string, bool) {
+	if os.Getenv("STUNVC_NO_PRIVATE_LOCALS") != "" {
+		return "", false
+	}
+	if tag, ok := privCache[a]; ok {
+		return tag, tag != ""
+	}
+	privCache[a] = ""
+	if a.Heap {
+		return "", false
+	}
+	el := a.Type().(*types.Pointer).Elem()
+	if _, _, isSc := scalarSort(el); isSc {
+		return "", false
+	}
+	switch u := el.Underlying().(type) {
+	case *types.Struct:
+	case *types.Array:
+		if _, _, isSc := scalarSort(u.Elem()); !isSc {
+			return "", false
+		}
+	default:
+		return "", false
+	}
+	var ok func(v ssa.Value) bool
+	ok = func(v ssa.Value) bool {
+		refs := v.Referrers()
+		if refs == nil {
+			return false
+		}
+		for _, ref := range *refs {
+			switch r := ref.(type) {
+			case *ssa.DebugRef:
+			case *ssa.UnOp:
+				if r.Op != token.MUL {
+					return false
+				}
+			case *ssa.Store:
+				if r.Val == v {
+					return false
+				}
+			case *ssa.FieldAddr:
+				if !ok(r) {
+					return false
+				}
+			case *ssa.IndexAddr:
+				if r.X != v || !ok(r) {
+					return false
+				}
+			default:
+				return false
+			}
+		}
+		return true
+	}
+	if !ok(a) {
+		return "", false
+	}
+	idx := 0
+	for k, ins := range a.Block().Instrs {
+		if ins == a {
+			idx = k
+		}
+	}
+	name := strings.Map(func(r rune) rune {
+		if r == '_' || r >= '0' && r <= '9' || r >= 'a' && r <= 'z' || r >= 'A' && r <= 'Z' {
+			return r
+		}
+		return -1
+	}, a.Comment)
+	tag := fmt.Sprintf("%s_%s_%d_%d", a.Parent().Name(), name, a.Block().Index, idx)
+	tag = strings.Map(func(r rune) rune {
+		if r == '_' || r >= '0' && r <= '9' || r >= 'a' && r <= 'z' || r >= 'A' && r <= 'Z' {
+			return r
+		}
+		return '_'
+	}, tag)
+	privCache[a] = tag
+	return tag, true
+}
+
 func (x *Exec) alloc(st *State, t types.Type, hint string) Ptr {
 	if hint == "" {
 		hint = "obj"
@@ -747,8 +927,17 @@ func (x *Exec) alloc(st *State, t types.Type, hint string) Ptr {
 	}, hint)
 	r := st.allocRegion(hint)
 	if at, ok := t.Underlying().(*types.Array); ok {
-		x.zeroRegion(st, at.Elem(), r)
-		return Ptr{R: r, I: Int(0), Root: at.Elem(), Elem: t, ArrRegion: true}
+		var root types.Type = at.Elem()
+		if lt, isL := t.(*localType); isL {
+			root = &localType{T: at.Elem(), Tag: lt.Tag}
+			t = lt.T
+		}
+		x.zeroRegion(st, root, r)
+		return Ptr{R: r, I: Int(0), Root: root, Elem: t, ArrRegion: true}
+	}
+	if lt, isL := t.(*localType); isL {
+		x.zeroRegion(st, t, r)
+		return Ptr{R: r, I: Int(0), Root: t, Elem: lt.T}
 	}
 	x.zeroRegion(st, t, r)
 	if _, isStruct := t.Underlying().(*types.Struct); isStruct {
